@@ -54,6 +54,7 @@ def obligations(tier):
         Ob('O12.4-b_add-two-kf', 'sx', S + 'h_b_add_two_kf', slices=[{'src': 'abcdefgh'}], timeout=t, finding='F36',
            descr='region F36: a later result inside or across an earlier one is kept'),
         Ob('O12.4-witness', 'fn', S + 'api_witness_f36', timeout=t, finding='F36', descr='API witness of F36'),
+        Ob('O12.6-witness-zh', 'fn', 'harness.witness:api_witness', slices=[{'w': 'F37-overlap'}], timeout=t, finding='F37', descr='API witness of F37 (zh-cn modifier widening: overlapping entities)'),
         Ob('O12.5-select-candidates', 'sx', S + 'h_select_candidates', timeout=max(t, 300),
            descr='NumberWithUnitExtractor._select_candidates: prefix/suffix currency candidates that share a unit are resolved to pairwise disjoint entities',
            bounds='2..3 candidates (one number each, numbers distinct, units possibly shared) anywhere in a text of length 10, prefix/suffix flags symbolic',
@@ -64,7 +65,8 @@ def obligations(tier):
         Ob('O12.0-neg-anchor', 'fn', 'harness.tables:audit_negative_terms', timeout=t,
            descr='audit: the negative-number-term pattern of every culture extractor is anchored at the end of the prefix (premise of the sweep stub)'),
     ]
-    cs = [{'kind': k, 'pad': a} for k in ('datetime', 'currency') for a in range(9)] + [{'kind': 'dimension'}, {'kind': 'percentage'}]
+    cs = [{'kind': k, 'pad': a} for k in ('datetime', 'currency') for a in range(10)] + [{'kind': 'dimension'}, {'kind': 'percentage'}]
+    cs += [{'kind': k, 'culture': 'zh-cn'} for k in ('currency', 'dimension', 'datetime')]
     obs.append(Ob('O12.6-composed', 'sx', 'harness.compose:h_compose', slices=cs, timeout=max(t, 300),
                   descr='API level, all real regexes: date/time, currency, dimension and percentage queries assembled from pools (phrases sharing an hour digit, '
                         'adjacent dates, ranges, modifiers, units sharing a sign): the returned entities are pairwise disjoint; an overlap is excused only when the '
